@@ -47,10 +47,45 @@ def show(o):
 PARTS = ("scheme", "netloc", "path", "query", "fragment")
 
 
+ACCESSORS = ("scheme", "raw_authority", "raw_user", "raw_password", "raw_host", "explicit_port", "port",
+             "raw_path", "raw_query_string", "raw_fragment", "host_subcomponent", "absolute")
+
+
+def warm(u):
+    """fill the per-object memo the way earlier calls in a program would have"""
+    for a in ACCESSORS:
+        try:
+            getattr(u, a)
+        except BaseException:
+            pass
+    try:
+        hash(u)
+        u < u
+    except BaseException:
+        pass
+    return u
+
+
+def memo_mismatch(u):
+    """accessors of a returned URL compared with a memo-free twin built from the same parts"""
+    from yarl._url import from_parts_uncached
+    twin = from_parts_uncached(u._scheme, u._netloc, u._path, u._query, u._fragment)
+    bad = []
+    for a in ACCESSORS + ("__hash__",):
+        def get(x):
+            try:
+                return ("ret", hash(x) if a == "__hash__" else getattr(x, a))
+            except BaseException as e:
+                return ("raise", type(e).__name__)
+        if get(u) != get(twin):
+            bad.append({"accessor": a, "returned_url": repr(get(u)), "memo_free_twin": repr(get(twin))})
+    return bad
+
+
 def real_arg(v):
     if isinstance(v, dict) and "__url__" in v:
         from yarl._url import from_parts_uncached
-        return from_parts_uncached(*[v["__url__"][p] for p in PARTS])
+        return warm(from_parts_uncached(*[v["__url__"][p] for p in PARTS]))
     return v
 
 
@@ -75,8 +110,19 @@ def norm_result(o):
 
 def judge(contract, inputs):
     """inputs: dict name -> python value.  Returns dict(real=..., spec=..., agrees=bool, in_pre=bool)"""
-    real = resolve(contract.qual)
     raw = [inputs[n] for n, _ in contract.params]
+    if getattr(contract, "fn", None) is not None and contract.spec is None:
+        # a lemma over specifications: it must evaluate to a true value
+        in_pre = True
+        if contract.requires is not None:
+            try:
+                in_pre = bool(contract.requires(*[spec_arg(a) for a in raw]))
+            except BaseException:
+                in_pre = False
+        r = outcome(contract.fn, [spec_arg(a) for a in raw])
+        ok = r[0] == "ret" and bool(r[1])
+        return {"real": show(r), "spec": {"returns": "True"}, "agrees": ok, "in_pre": in_pre}
+    real = resolve(contract.qual)
     in_pre = True
     if contract.requires is not None:
         try:
@@ -85,8 +131,12 @@ def judge(contract, inputs):
             in_pre = bool(contract.requires(*[spec_arg(a) for a in raw][:nreq]))
         except BaseException:
             in_pre = False
-    r = norm_result(outcome(real, [real_arg(a) for a in raw]))
+    r0 = outcome(real, [real_arg(a) for a in raw])
+    memo_bad = memo_mismatch(r0[1]) if r0[0] == "ret" and type(r0[1]).__name__ == "URL" and hasattr(r0[1], "_cache") else []
+    r = norm_result(r0)
     s = norm_result(outcome(contract.spec, [spec_arg(a) for a in raw]))
+    if memo_bad:
+        return {"real": show(r), "spec": show(s), "agrees": False, "in_pre": in_pre, "memo_mismatch": memo_bad}
     return {"real": show(r), "spec": show(s), "agrees": agrees(r, s), "in_pre": in_pre}
 
 
@@ -157,12 +207,26 @@ def search_with_urls(contract, seed_inputs, budget, seed):
         "str": ["", "x", "a b", "é", "%41", "/", ":", "@", "a/b", ".", "..", "x.y", "\ud800"],
     }
     tried = 0
+
+    def variants(u):
+        d = u["__url__"]
+        out = [u]
+        for k, vals in (("path", ("", "/", "/a")), ("scheme", ("", "http", "https")), ("netloc", ("", "h", "h:80")),
+                        ("query", ("", "q=1")), ("fragment", ("", "f"))):
+            for v in vals:
+                if d[k] != v:
+                    e = dict(d)
+                    e[k] = v
+                    out.append({"__url__": e})
+        return out
     for u in corpus:
         alts = []
+        first_url = True
         for n in names:
             v = seed_inputs.get(n)
             if isinstance(v, dict) and "__url__" in v:
-                alts.append([u])
+                alts.append([u] if first_url else variants(u))
+                first_url = False
             elif isinstance(v, bool) or isinstance(v, int) or v is None:
                 alts.append([v] + scalars["int"])
             elif isinstance(v, str):
